@@ -923,6 +923,21 @@ pub fn expected_sources(entries: &[FsEntry], input: &str, input_is_file: bool) -
         .filter(|e| e.body != Body::Dir && e.path.starts_with(&prefix) && is_lua(&e.path))
         .map(|e| e.path.clone())
         .collect();
+    // a symbolic link to a directory of the tree: the walk follows it, so the Lua files
+    // below the target are sources under the link's name as well
+    for link in entries.iter().filter(|e| e.path.starts_with(&prefix)) {
+        if let Body::Symlink(target) = &link.body {
+            let target = normalize(&join(parent(&link.path), target));
+            let below = format!("{}/", target);
+            for e in entries {
+                if e.body != Body::Dir && !matches!(e.body, Body::Symlink(_)) && is_lua(&e.path) {
+                    if let Some(rel) = e.path.strip_prefix(&below) {
+                        out.push(join(&link.path, rel));
+                    }
+                }
+            }
+        }
+    }
     out.sort();
     out.dedup();
     out
